@@ -109,6 +109,9 @@ def shards(tier: str, seed: int) -> list[dict]:
     out = [{"kind": "exhaustive", "maxn": 4, "part": p, "parts": nsh} for p in range(nsh)]
     out += [{"kind": "sampled", "count": 60 if tier == "quick" else 6000} for _ in range(2 if tier == "quick" else 8)]
     out += [{"kind": "overloads", "count": 500 if tier == "quick" else 8000}, {"kind": "properties", "count": 400 if tier == "quick" else 8000}]
+    # one interpreter, all workloads interleaved: what an earlier definition (an awaitable property, a decorated async def,
+    # an overload group) leaves behind in the agent must not change how a later one is read
+    out += [{"kind": "mixed", "count": 150 if tier == "quick" else 4000} for _ in range(2 if tier == "quick" else 4)]
     if tier == "thorough":
         out += [{"kind": "exhaustive5", "part": p, "parts": 8} for p in range(8)]
     return out
@@ -409,7 +412,8 @@ def run_property_case(rec, rng) -> None:  # noqa: ANN001
     prefix = rng.choice(["", "    x = 0\n", "    def x(self, q): ...\n"])
     suffix = rng.choice(["", "    def y(self): ...\n", "    z = 1\n"])
     deco = rng.choice(["@property", "@property", "@functools.cached_property"]) if not order else "@property"
-    src = "import functools\nclass C:\n" + prefix + f"    {deco}\n    def x(self) -> int:\n        'doc'\n"
+    adef = rng.choice(["def", "def", "async def"])  # awaitable properties are properties too
+    src = "import functools\nclass C:\n" + prefix + f"    {deco}\n    {adef} x(self) -> int:\n        'doc'\n"
     for i, what in enumerate(order):
         sig = "self, value: int" if what == "setter" else "self"
         sig += rng.choice(["", ", /"]) if i == 0 else ""
@@ -497,6 +501,18 @@ def run_shard(spec: dict, rec) -> None:  # noqa: ANN001
     elif kind == "properties":
         for _ in range(spec["count"]):
             run_property_case(rec, rng)
+    elif kind == "mixed":
+        small = [pl for n in range(4) for pl in param_lists(n)]
+        for _ in range(spec["count"]):
+            r = rng.random()
+            if r < 0.3:
+                run_property_case(rec, rng)
+            elif r < 0.5:
+                run_overload_case(rec, rng)
+            else:
+                kinds, dfl, ann = rng.choice(small)
+                run_signature_case(rec, rng, kinds, dfl, ann, future=rng.random() < 0.5)
+            rec.count("interleaved_workloads_in_one_interpreter")
 
 
 def run_replay(inp: dict, rec) -> None:  # noqa: ANN001
